@@ -58,11 +58,46 @@ let parse_ldoc (line : string) : ldoc =
   if !pos <> Array.length toks then raise (Bad "trailing tokens");
   { ld_header = header; ld_ws = ws; ld_items = its }
 
+(* "writer": one Writer op sequence per line ( H hex | F | O hex | P hex hex | C )* [ ? hexkey* ];
+   prints what harness/C16/writer_harness.cpp prints for the real Writer + readXML + hasProp/getProp,
+   computed by the extracted WriterModel.writer_output / Model.parse / has_prop / get_prop;  ABORT = an assert
+   of the Writer fires *)
+let writer_line (line : string) : string =
+  let toks = Array.of_list (List.filter (fun t -> t <> "") (String.split_on_char ' ' line)) in
+  let s i = str_of_string (string_of_hex toks.(i)) in
+  let rec go i ops =
+    if i >= Array.length toks then (List.rev ops, [])
+    else match toks.(i) with
+      | "H" -> go (i + 2) (WHeader (s (i + 1)) :: ops)
+      | "F" -> go (i + 1) (WFooter :: ops)
+      | "O" -> go (i + 2) (WOpen (s (i + 1)) :: ops)
+      | "P" -> go (i + 3) (WProp (s (i + 1), s (i + 2)) :: ops)
+      | "C" -> go (i + 1) (WClose :: ops)
+      | "?" -> (List.rev ops, List.init (Array.length toks - i - 1) (fun j -> s (i + 1 + j)))
+      | _ -> raise (Bad "op") in
+  let (ops, keys) = go 0 [] in
+  match writer_output ops with
+  | None -> "ABORT"
+  | Some bytes ->
+    let fb = str_of_string "FB" in
+    let (d, acc) = (match parse bytes with
+      | Ok (Node (n, p, c, ch), _) ->
+        let accs = List.concat (List.mapi (fun i (Node (_, props, _, _)) ->
+          List.map (fun k -> " " ^ string_of_int i ^ ":" ^ hexs k ^ "=" ^ (if has_prop k props then "1" else "0") ^ ","
+                             ^ hexs (get_prop k props) ^ "," ^ hexs (get_prop_or k fb props)) keys) ch) in
+        (dump (Node (n, p, c, ch)), String.concat "" accs)
+      | Throw -> ("THROW", "")
+      | OOB -> ("OOB", "")
+      | OutOfFuel -> ("OUTOFFUEL", "")) in
+    hexs bytes ^ " " ^ d ^ " acc" ^ acc
+
 let () =
   let mode = if Array.length Sys.argv > 1 then Sys.argv.(1) else "" in
   try while true do
     let line = String.trim (input_line stdin) in
-    if mode = "render" then begin
+    if mode = "writer" then
+      print_endline (try writer_line line with Bad _ | Failure _ | Invalid_argument _ -> "BADCASE")
+    else if mode = "render" then begin
       match (try Some (parse_ldoc line) with Bad _ | Failure _ | Invalid_argument _ -> None) with
       | None -> print_endline "BADCASE"
       | Some d ->
